@@ -28,6 +28,45 @@ class FakeSocket:
         return self._name
 
 
+class RefBuf:
+    """Output buffer of a transport that keeps what it was given *by reference* until it goes out, as CPython's selector transport
+    does since 3.12 (the unsent part of a write is a memoryview of the caller's object, not a copy): a caller that re-uses a mutable
+    buffer after write() changes bytes that are still waiting."""
+
+    def __init__(self):
+        self.parts = []
+        self.n = 0
+
+    def __len__(self):
+        return self.n
+
+    def __bool__(self):
+        return self.n > 0
+
+    def append(self, data):
+        self.parts.append(data if isinstance(data, bytes) else memoryview(data))
+        self.n += len(data)
+
+    def take(self, k):
+        out = bytearray()
+        while k > 0 and self.parts:
+            p = self.parts[0]
+            if len(p) <= k:
+                out += bytes(p)
+                k -= len(p)
+                self.parts.pop(0)
+            else:
+                out += bytes(p[:k])
+                self.parts[0] = p[k:]
+                k = 0
+        self.n -= len(out)
+        return bytes(out)
+
+    def clear(self):
+        self.parts = []
+        self.n = 0
+
+
 class End(asyncio.Transport):
     """One end of a simulated TCP connection."""
 
@@ -38,7 +77,7 @@ class End(asyncio.Transport):
         self.side = side  # "srv" | "cli"
         self.protocol = None
         self.peer = None
-        self.outbuf = bytearray()
+        self.outbuf = RefBuf()
         self.closing = False  # close() requested
         self.closed = False  # connection_lost delivered / scheduled
         self.eof_delivered = False  # our EOF reached the peer
@@ -111,19 +150,20 @@ class End(asyncio.Transport):
         self.close()
 
     def write(self, data):
-        data = bytes(data)
-        if not data:
+        if not isinstance(data, (bytes, bytearray, memoryview)):
+            raise TypeError("data argument must be a bytes-like object, not %r" % type(data).__name__)
+        if not len(data):
             return
         if self.closing or self.closed:  # nothing of this reaches the wire (closed by us, or reset by the peer)
             self.discarded += len(data)
             return
         if self.on_write is not None:
-            self.on_write(data)
+            self.on_write(bytes(data))
         self.nwritten += len(data)
         if self.peer.closed:
             self.discarded += len(data)
             return
-        self.outbuf += data
+        self.outbuf.append(data)
         if not self.wpaused and len(self.outbuf) > self.high:
             self.wpaused = True
             self.protocol.pause_writing()
@@ -193,8 +233,7 @@ class End(asyncio.Transport):
                 self.outbuf.clear()
             else:
                 k = len(self.outbuf) if n is None else min(n, len(self.outbuf))
-                chunk = bytes(self.outbuf[:k])
-                del self.outbuf[:k]
+                chunk = self.outbuf.take(k)
                 self.ndelivered += k
                 if self.on_deliver is not None:
                     self.on_deliver(chunk)
